@@ -163,6 +163,8 @@ def run(ctx):
         ctx.cov['traces_validated_against_impl'] += len(res)
         bad = [i for i, r in enumerate(res) if not r]
         if bad: ctx.broken.append(f'CGNE model and implementation disagree on {len(bad)} of {len(res)} trajectory(ies), first: {cterms[bad[0]][:400]}')
+    _An, _Aq = wellcond(4, 3, 3)
+    cm.layout_sweep(ctx, qx, 'C13', 'CGNEQSolver', lambda X: solver.CGNEQSolver(tol=0.0, max_iter=2).compute(X)[0], _An, {'shape': [4, 3]})
     ctx.cov['rule'] = ('full-column-rank matrices with prescribed condition number (exact rational construction), shapes ' + str(shapes) + '; CGNE: every residual and the final iterate against the exact Qc trajectory, flag / history / pseudoinverse accuracy for tol 1e-3..1e-8; '
                        f'RSP column and row variants, hybrid: seeds {list(seeds)}, block sizes 1..n, qr and spd micro-solvers, hyper-power orders, with the test sketch recorded from the global generator so that the sketch bound and the proxy of the returned iterate are recomputed exactly.')
     return cm.finish(ctx, 'proof', '', ASSUME)
